@@ -4,7 +4,7 @@
 From SQ Require Import lib.Base gen.Gen_C16.
 From SQ Require model.SlidingWindow proofs.SlidingWindowProofs.
 From SQ Require model.IntervalSet proofs.IntervalSetProofs model.AckRanges model.PnMap.
-From SQ Require proofs.IntervalSetRemove proofs.IntervalSetSearch proofs.IntervalSetOps proofs.IntervalSetRun.
+From SQ Require proofs.IntervalSetRemove proofs.IntervalSetSearch proofs.IntervalSetOps proofs.IntervalSetRun proofs.AckRangesProofs.
 Local Open Scope N_scope.
 
 (* ------------------------------------------------------------------------------------------ *)
@@ -180,6 +180,31 @@ Example C16_iset_case_ok_example :
   IntervalSetRun.iset_case_ok [0;5;9; 0;20;29; 0;10;19; 1;12;13; 5;2;0; 1;25;26; 6;0;100; 7;1;0; 6;3;8; 7;2;0; 7;0;0]%Z = true.
 Proof. vm_compute. reflexivity. Qed.
 
+(* ------------------------------------------------------------------------------------------ *)
+(* ack::Ranges                                                                                *)
+(* ------------------------------------------------------------------------------------------ *)
+
+(* insert_packet_number_range (insert, on LimitExceeded pop_min, then re-insert or insert_front back)
+   IS "insert into the set; when that leaves more than `limit` ranges, drop the lowest one (which may be
+   the new one)", on every state satisfying the invariant (ISWf, limit L >= 1, at most L ranges) *)
+Theorem C16_ack_insert_range_refines : forall s a b, AckRangesProofs.AInv s -> a <= b -> b <= AckRanges.pmax ->
+  AckRanges.insert_range s a b = AckRanges.ref_insert_range s a b.
+Proof. exact AckRangesProofs.insert_range_refines. Qed.
+
+(* the invariant - in particular the capacity bound - is kept by every insert *)
+Theorem C16_ack_insert_range_inv : forall s a b, AckRangesProofs.AInv s -> a <= b -> b <= AckRanges.pmax ->
+  AckRangesProofs.AInv (fst (AckRanges.ref_insert_range s a b)).
+Proof. exact AckRangesProofs.ref_insert_range_inv. Qed.
+
+(* only the lowest range is discarded: a range reported as LowestRangeDropped lies entirely below
+   everything retained.  PARTIAL with respect to DESIGN ack_ranges_refines: the same statement for a
+   refused new range (RangeInsertionFailed) and judge_run for the whole `ack` op alphabet (contains /
+   remove / pop_min steps follow from the IntervalSet theorems but are not assembled) are missing. *)
+Theorem C16_ack_drops_only_lowest_partial : forall s a b, AckRangesProofs.AInv s -> a <= b -> b <= AckRanges.pmax ->
+  forall lo hi, snd (AckRanges.ref_insert_range s a b) = [2%Z; Nz lo; Nz hi] ->
+  forall y, IntervalSetProofs.mem y (IntervalSet.intervals (fst (AckRanges.ref_insert_range s a b))) -> hi < y.
+Proof. exact AckRangesProofs.ref_insert_range_drops_lowest. Qed.
+
 (* non-vacuity: model and reference agree on a run with merges, a split, the limit and both set operations *)
 Example C16_iset_example :
   IntervalSet.run [0;5;9; 0;20;29; 0;10;19; 1;12;13; 5;2;0; 1;25;26; 6;0;100; 7;1;0]%Z =
@@ -210,3 +235,6 @@ Print Assumptions C16_iset_difference_refines.
 Print Assumptions C16_iset_refines.
 Print Assumptions C16_iset_run_is_spec.
 Print Assumptions C16_iset_judge_model.
+Print Assumptions C16_ack_insert_range_refines.
+Print Assumptions C16_ack_insert_range_inv.
+Print Assumptions C16_ack_drops_only_lowest_partial.
